@@ -279,7 +279,8 @@ def degenerate_histories(recipe, rng, reads=True):
 
 
 GROUPS = {"_clip_layers": "clip-relation", "_has_clip_target": "clip-relation", "clip_layers": "clip-relation",
-          "has_clip_layers": "clip-relation", "clipping_layer": "clip-relation"}
+          "has_clip_layers": "clip-relation", "clipping_layer": "clip-relation",
+          "class": "tree-structure", "len": "tree-structure", "descendants": "tree-structure"}
 
 
 def run(recipe, ops, pixels=True, every=True):
@@ -301,7 +302,12 @@ def run(recipe, ops, pixels=True, every=True):
         if not every and k != last:
             continue
         for d in w.docs():
-            for name, path, live, fresh in compare(w.objs[d], pixels):
+            diffs = compare(w.objs[d], pixels)
+            if any(GROUPS.get(n) == "tree-structure" for n, _, _, _ in diffs):
+                # the document opened again is another TREE (layers missing / extra / elsewhere): every other value
+                # differs as a consequence, one report
+                diffs = [x for x in diffs if GROUPS.get(x[0]) == "tree-structure"][:1]
+            for name, path, live, fresh in diffs:
                 out.append(("C14/derived-stale/%s/after-%s" % (GROUPS.get(name, name), op[0]),
                             "after %s (-> %s) %s of the layer at position %s of document %d is %s; the same document "
                             "written and opened again answers %s" % (T.op_str(op), res, name, list(path), d,
